@@ -69,3 +69,23 @@ claim("C20",
       "Decides that in each of the four use-case mutators the DataCopy and the SetData of the modified copy share one critical section of one common lock, that no use-case helper writes shared list elements in place, that all five methods key by the entity's own device+entity address, copy the use-case function and delegate to the matching helper, that RemoveEntity clears the entity's use cases and that the read is answered from the stored function. Necessary conditions; registry contents over histories are not decided.",
       "Trusted: go/ssa, call resolution.",
       "DESIGN.md §4 C20")
+claim("C06",
+      "guard-action coherence by access-path provenance + CFG reachability under finite assignments + dominance rules on the removal cascade + wiring rules",
+      "Decides that the entity removed by a discovery notification is the very element whose state was tested, that entries announced as removed are unreachable for creation and feature reset on the add path, that a removal which found the entity is followed by exactly one entity-removed event and the three clean-ups for that entity (and none otherwise), that entity-added events are published once per element of the list of newly created entities (which grows only on a look-up miss), and that SetOperations/NewOperations wire read/write/partial flags from the matching sub-elements. Necessary conditions; equality of the resulting tree with the fold of all announcements is not decided.",
+      "Trusted: go/ssa; getters uninterpreted.",
+      "DESIGN.md §4 C06")
+claim("C10",
+      "retain-predicate truth tables + lockset/dominance rules on timers + structural completeness rule of the teardown + event placement rules",
+      "Decides that the per-entity registry removals compare the peer as well as the entity and the four client-side clean-ups keep exactly the entries of other devices/entities (boolean retain formula over all assignments), that dropping a peer's pending approvals stops their timers in the same critical section, that RemoveRemoteDevice performs every clean-up step unconditionally for the removed peer over all features of all local entities with the map changed under its lock, and that removal events are published exactly in the removal branch and once per connection removal. Necessary conditions; 'and only' beyond the predicates and later datagrams are not decided.",
+      "Trusted: go/ssa, go/types; DeepEqual/getters uninterpreted.",
+      "DESIGN.md §4 C10")
+claim("C12",
+      "lockset claim-by-test-and-delete rule + outer-key guard + path effect counting of both resolvers + finite truth table of the tally",
+      "Decides that the per-peer maps are created only on a miss of the outer key, that each resolver (ApproveOrDenyWrite and the timeout callback) claims the pending entry by a comma-ok look-up and delete in one critical section and produces its outcome only after a successful claim, that the timer is armed and stored under the lock, that a claimed write yields exactly one outcome on every path and an unclaimed one none, that each callback is started once, the entry armed first, and that the tally logic reaches the claim exactly when denied, single-callback or unanimous. Necessary conditions; timing is not decided.",
+      "Trusted: go/ssa, time.AfterFunc semantics.",
+      "DESIGN.md §4 C12")
+claim("C14",
+      "lockset rules on the callback tables + path effect counting from every HandleMessage implementation + provenance of trigger arguments",
+      "Decides that look-up, start and delete of the callbacks of one counter are one critical section with de-duplicating registration under the same lock, that on both HandleMessage implementations an accepted reply triggers the response callbacks exactly once iff a reference is present (rejected: never) and an accepted result triggers response and result callbacks once each, and that every trigger is keyed by the inbound msgCounterReference with a ResponseMessage carrying the receiver and the message's remote feature/entity/device. Necessary conditions; callback identity and registration racing arrival are not decided.",
+      "Trusted: go/ssa, call resolution; loops unrolled at most once.",
+      "DESIGN.md §4 C14")
